@@ -3,4 +3,3 @@ package main
 import "verifharness/internal/out"
 
 func genC09(w *out.W, tier string) {}
-func genC11(w *out.W, tier string) {}
